@@ -272,11 +272,26 @@ def main(argv):
         items = json.load(sys.stdin)
         mods = load_contracts()
         out = []
+        import signal
+
+        class _Timeout(BaseException):
+            pass
+
+        def _alarm(signum, frame):
+            raise _Timeout()
+
+        signal.signal(signal.SIGALRM, _alarm)
+        sys.setrecursionlimit(3000)
         for it in items:
+            signal.alarm(5)
             try:
                 out.append(replay_model(it["key"], it["contract"], it["desc"], mods))
-            except Exception:
+            except _Timeout:
+                out.append({"verdict": "timeout", "detail": "the real function did not return within 5 s on the concretised input"})
+            except BaseException:
                 out.append({"verdict": "error", "detail": traceback.format_exc()[-800:]})
+            finally:
+                signal.alarm(0)
         json.dump(out, sys.stdout)
         return 0
     if cmd == "replay-file":
